@@ -29,6 +29,7 @@ type oracle struct {
 	cache  map[string]string
 	dir    string
 	n      int
+	solver string
 }
 
 func newOracle(smtFile string) (*oracle, error) {
@@ -80,14 +81,29 @@ func (o *oracle) values(terms []string) (map[string]string, error) {
 	if err := os.WriteFile(f, []byte(q.String()), 0o644); err != nil {
 		return nil, err
 	}
-	defer os.Remove(f)
-	ctx, cancel := context.WithTimeout(context.Background(), 20*time.Second)
-	defer cancel()
-	cmd := exec.CommandContext(ctx, "z3-new", "-smt2", "-T:15", "smt.array.extensional=false", f)
+	if os.Getenv("GOVC_KEEPQ") == "" {
+		defer os.Remove(f)
+	}
+	// the solver that produced the first model answers the later queries too; the other z3 is the fallback
+	solvers := []string{"z3-new", "z3"}
+	if o.solver == "z3" {
+		solvers = []string{"z3", "z3-new"}
+	}
+	var lines []string
 	var buf bytes.Buffer
-	cmd.Stdout = &buf
-	cmd.Run()
-	lines := strings.SplitN(buf.String(), "\n", 2)
+	for _, sv := range solvers {
+		buf.Reset()
+		ctx, cancel := context.WithTimeout(context.Background(), 20*time.Second)
+		cmd := exec.CommandContext(ctx, sv, "-smt2", "-T:15", "smt.array.extensional=false", f)
+		cmd.Stdout = &buf
+		cmd.Run()
+		cancel()
+		lines = strings.SplitN(buf.String(), "\n", 2)
+		if strings.TrimSpace(lines[0]) == "sat" && len(lines) == 2 {
+			o.solver = sv
+			break
+		}
+	}
 	if strings.TrimSpace(lines[0]) != "sat" || len(lines) < 2 {
 		return nil, fmt.Errorf("model query not sat: %s", firstLines(buf.String(), 3))
 	}
@@ -134,6 +150,29 @@ func parseAllSx(s string) []*sx {
 		}
 	}
 	return out
+}
+
+// prefer asks for a model that additionally satisfies the constraint (small strings and slices make
+// replayable inputs); if one exists the constraint is kept for all later queries, otherwise nothing changes.
+func (o *oracle) prefer(constraint string, forget ...string) bool {
+	saved := map[string]string{}
+	for _, k := range forget {
+		if v, ok := o.cache[k]; ok {
+			saved[k] = v
+			delete(o.cache, k)
+		}
+	}
+	old := o.script
+	o.script = strings.Replace(o.script, "(check-sat)", "(assert "+constraint+")\n(check-sat)", 1)
+	if _, err := o.values([]string{"(+ 0 0)"}); err != nil {
+		o.script = old
+		for k, v := range saved {
+			o.cache[k] = v
+		}
+		return false
+	}
+	delete(o.cache, "(+ 0 0)")
+	return true
 }
 
 func (o *oracle) val(term string) (string, error) {
@@ -269,6 +308,12 @@ func (b *inputBuilder) build(term string, t types.Type, depth int) string {
 		if d == 0 {
 			return "nil"
 		}
+		if int(d) > len(b.vc.typeByID) || d < 0 {
+			// a dynamic type the verifier never named cannot matter to the failing path: ask for a model with nil there
+			if b.o.prefer("(= (if.dyn "+term+") 0)", "(if.dyn "+term+")", term) {
+				return "nil"
+			}
+		}
 		if int(d) > len(b.vc.typeByID) {
 			b.fail = "interface value of a dynamic type the verifier did not name"
 			return "nil"
@@ -324,6 +369,14 @@ func (b *inputBuilder) buildString(term string, t types.Type) string {
 		return `""`
 	}
 	n, _ := smtInt(lv)
+	if n < 0 || n > 4096 {
+		lt := "(gs.len " + term + ")"
+		if b.o.prefer(fmt.Sprintf("(and (<= 0 %s) (<= %s 8))", lt, lt), lt, term) {
+			if lv, err = b.o.val(lt); err == nil {
+				n, _ = smtInt(lv)
+			}
+		}
+	}
 	if n < 0 || n > 4096 {
 		b.fail = "string length in model is unreasonable"
 		return `""`
@@ -434,6 +487,21 @@ func (b *inputBuilder) buildSlice(term string, t types.Type, u *types.Slice, dep
 	if arr == 0 {
 		return fmt.Sprintf("%s(nil)", b.typeStr(t))
 	}
+	if arr != 0 && (off < 0 || ln < 0 || cp < ln || off+cp > 1<<10) {
+		q := func(f string) string { return "(" + f + " " + term + ")" }
+		if b.o.prefer(fmt.Sprintf("(and (<= 0 %s) (<= %s 16) (<= 0 %s) (<= %s %s) (<= %s 64))", q("sl.off"), q("sl.off"), q("sl.len"), q("sl.len"), q("sl.cap"), q("sl.cap")),
+			q("sl.arr"), q("sl.off"), q("sl.len"), q("sl.cap"), term) {
+			if vals, err = b.o.values([]string{q("sl.arr"), q("sl.off"), q("sl.len"), q("sl.cap")}); err == nil {
+				arr, _ = smtInt(vals[q("sl.arr")])
+				off, _ = smtInt(vals[q("sl.off")])
+				ln, _ = smtInt(vals[q("sl.len")])
+				cp, _ = smtInt(vals[q("sl.cap")])
+				if arr == 0 {
+					return fmt.Sprintf("%s(nil)", b.typeStr(t))
+				}
+			}
+		}
+	}
 	if off < 0 || ln < 0 || cp < ln || off+cp > 1<<16 {
 		b.fail = "slice geometry in model is unreasonable"
 		return "nil"
@@ -529,6 +597,9 @@ func tryReplay(p *Program, rep *FuncReport, o *Obligation, repo, rdir string) (b
 		return false, nil
 	}
 	orc, err := newOracle(o.SmtFile)
+	if err == nil && o.Solver == "z3" {
+		orc.solver = "z3"
+	}
 	if err != nil {
 		info["error"] = err.Error()
 		return false, info
